@@ -240,7 +240,7 @@ def history_battery(seed):
     run in ONE process in an order that interleaves routines and term counts (a larger multi-scalar call before a smaller
     one, table users before and after each other); every result is compared with the stateless big-integer oracle"""
     from sym import ptreplay
-    return ptreplay.battery_scalarmult(seed, maxn=3) or ptreplay.battery_history_variants(seed) or ptreplay.battery_decode_history(seed) or ptreplay.battery_history_after_panic(seed) or ptreplay.battery_scalarmult(seed + 1, maxn=4)
+    return ptreplay.battery_scalarmult(seed, maxn=3) or ptreplay.battery_history_variants(seed) or ptreplay.battery_decode_history(seed) or ptreplay.battery_receiver_history(seed) or ptreplay.battery_history_after_panic(seed) or ptreplay.battery_scalarmult(seed + 1, maxn=4)
 
 
 def safety_net(chk):
